@@ -287,7 +287,7 @@ CLAIMED = {
              "makes, for every connection. The ConnectionAborted-kind write error is covered by the correspondence check + oracle (fault at "
              "every write index followed by counted accept-all calls; handlers with propagating reads), which exposed finding F4 (repaired, "
              "/repo b370518; replay corpus/C12). Also: EOF at every "
-             "byte offset of short connections, a read error at every read index.",
+             "byte offset of short connections, a read error at every read index. WHOLE CONNECTION, write side: C12_connection_framing_under_faults - with a first write fault (zero-length write or write error) at ANY write call and handlers that propagate I/O errors, the transport log of Token::run is at every end of the run a prefix of a byte string that decodes completely into records (together with C12_nothing_after_failed_write: the failed call is the last write call, and what was written before it is a prefix of a well-formed record sequence).",
         design="6/C12, 13.3", technique="Coq proof (totality of the connection model under all fault scripts; parse_request composed with the request-parser theorems; read/write accounting) + exhaustive fault-position enumeration per scripted connection through model and crate",
         note="KNOWN FINDING F5 (not repaired): hang after a swallowed failed reply flush followed by a StreamWriter operation; for the ConnectionAborted-kind write error the nothing-written-after clause is by correspondence + oracle (judged on runs in which the handler swallowed no error); after a real client abort, a reply flush that fails with that very kind during close is still taken for the abort (outside C12's traffic; DESIGN 13.3); single task."),
     "C13": dict(
